@@ -433,7 +433,8 @@ def main(ctx, args):
         hist_pool = sorted(cheap, key=weight, reverse=True)[:60]
         nproc = 8
         jobs = [(f, (seed_hist + hist_pool) if f in seeds else hist_pool, nproc, 5, ctx.seed) for f in cheap]
-        jobs += [(f, hist_pool[:20], 2 if quick else 8, 2 if quick else 3, ctx.seed) for f in heavy]
+        # heavy files (> 0.25 s per compilation): quick = 1 process x 2 histories (+ the history-free cost pass = 2nd process)
+        jobs += [(f, hist_pool[:20], 1 if quick else 8, 2 if quick else 3, ctx.seed) for f in heavy]
         jobs.sort(key=lambda j: -cost[j[0]])
         results = parallel(jobs, check_target)
         for f, dt, recs in costs:  # the cost pass is one more fresh process without history
